@@ -186,3 +186,51 @@ func VerifC20CacheConcurrent() {
 	c09CollidePrefix = "c20.cache.concurrent"
 	VerifC09BucketCacheCollide()
 }
+
+// VerifC20CallerReusesSlice: "the bounds it was created with" are the contents of the spec at
+// the time of the Histogram call.  The caller creates one histogram, rewrites the same slice in
+// place (any new contents: the solver may pick contents that collide with the old ones in the
+// cache identity, for instance {1s,4s} -> {2s,3s}) and creates a second histogram with it.
+// The second histogram must use the new contents, the first keeps the old ones.
+func VerifC20CallerReusesSlice() {
+	rec := &vReporter{}
+	root := newRootScope(ScopeOptions{Reporter: rec, OmitCardinalityMetrics: true, registryShardCount: 1}, 0)
+	if verifrt.Choose("reuse.kind", 2) == 0 {
+		b := make(DurationBuckets, 2)
+		a0, a1 := verifrt.Int64("reuse.first"), verifrt.Int64("reuse.first")
+		b[0], b[1] = time.Duration(a0), time.Duration(a1)
+		h1 := root.Histogram("a", b)
+		checkOwnBounds("c20.reuse.first", h1, b, []uint64{uint64(a0), uint64(a1)}, true)
+		c0, c1 := verifrt.Int64("reuse.second"), verifrt.Int64("reuse.second")
+		b[0], b[1] = time.Duration(c0), time.Duration(c1)
+		h2 := root.SubScope("s").Histogram("b", b)
+		checkOwnBounds("c20.reuse.second", h2, b, []uint64{uint64(c0), uint64(c1)}, true)
+		lo, hi := a0, a1
+		if a1 < a0 {
+			lo, hi = a1, a0
+		}
+		hb := h1.(*histogram).buckets
+		verifrt.Assert("c20.reuse.first-keeps-creation-time-bounds",
+			len(hb) == 3 && int64(hb[0].durationUpperBound) == lo && int64(hb[1].durationUpperBound) == hi)
+	} else {
+		b := make(ValueBuckets, 2)
+		a0, a1 := verifrt.Float64("reuse.first"), verifrt.Float64("reuse.first")
+		verifrt.Assume(verifrt.And(finite(a0), finite(a1)))
+		b[0], b[1] = a0, a1
+		h1 := root.Histogram("a", b)
+		checkOwnBounds("c20.reuse.first", h1, b, []uint64{fbits(a0), fbits(a1)}, false)
+		c0, c1 := verifrt.Float64("reuse.second"), verifrt.Float64("reuse.second")
+		verifrt.Assume(verifrt.And(finite(c0), finite(c1)))
+		b[0], b[1] = c0, c1
+		h2 := root.SubScope("s").Histogram("b", b)
+		checkOwnBounds("c20.reuse.second", h2, b, []uint64{fbits(c0), fbits(c1)}, false)
+		lo, hi := a0, a1
+		if a1 < a0 {
+			lo, hi = a1, a0
+		}
+		hb := h1.(*histogram).buckets
+		verifrt.Assert("c20.reuse.first-keeps-creation-time-bounds",
+			verifrt.And(len(hb) == 3, verifrt.And(hb[0].valueUpperBound == lo, hb[1].valueUpperBound == hi)))
+	}
+	verifrt.Reach("c20.reuse.end")
+}
